@@ -81,7 +81,9 @@ func runIter(c IterCase) (res vh.Result) {
 		w.WriteTask(cls, fmt.Sprintf("name: %s\ndefaults:\n  it: none\ncontrol:\n  mode: direct\nwants:\n  cpu: 0.1\n  memory: 64\ncommand:\n  shell: true\n  value: \"echo it=<{{ it }}>\"\n", cls))
 	}
 	w.WriteWorkflow(wf, sb.String())
-	defer func() { res.History = map[string]interface{}{"workflow": sb.String(), "world_log_tail": w.LogLines(40)} }()
+	defer func() {
+		res.History = map[string]interface{}{"workflow": sb.String(), "world_log_tail": w.LogLines(40)}
+	}()
 	fail := func(sig, f string, a ...interface{}) vh.Result {
 		res.Violation = fmt.Sprintf(f, a...)
 		res.Signature = sig
